@@ -5,21 +5,550 @@ From Whawty Require Import Bytes Bytes_proofs Base64 Names Record Store StoreTra
 From Coq Require Import ZifyN ZifyNat ZifyBool.
 Open Scope N_scope.
 
+
+(* ---------------- auxiliaries: maps ---------------- *)
+Lemma elookup_eremove g k e :
+  elookup g (eremove k e) = if beq g k then None else elookup g e.
+Proof.
+  induction e as [|[k' v] e IH]; cbn [eremove elookup].
+  - now destruct (beq g k).
+  - destruct (beq k k') eqn:Ekk'.
+    + apply beq_eq in Ekk'. subst k'. rewrite IH. now destruct (beq g k).
+    + cbn [elookup]. rewrite IH. destruct (beq g k) eqn:Egk; [|reflexivity].
+      apply beq_eq in Egk. subst g. now rewrite Ekk'.
+Qed.
+
+Lemma elookup_eset g k v e :
+  elookup g (eset k v e) = if beq g k then Some v else elookup g e.
+Proof.
+  unfold eset. cbn [elookup]. rewrite elookup_eremove. now destruct (beq g k).
+Qed.
+
+Lemma ilookup_filter j i t :
+  Nat.eqb j i = false ->
+  ilookup j (filter (fun e : ino * inode => negb (Nat.eqb i (fst e))) t) = ilookup j t.
+Proof.
+  intros Hji. induction t as [|[k n] t IH]; cbn [filter ilookup fst]; [reflexivity|].
+  destruct (Nat.eqb i k) eqn:Eik; cbn [negb].
+  - apply Nat.eqb_eq in Eik. subst k. now rewrite Hji.
+  - cbn [ilookup]. now rewrite IH.
+Qed.
+
+Lemma ilookup_iset j i n t :
+  ilookup j (iset i n t) = if Nat.eqb j i then Some n else ilookup j t.
+Proof.
+  unfold iset. cbn [ilookup]. destruct (Nat.eqb j i) eqn:E; [reflexivity|].
+  now apply ilookup_filter.
+Qed.
+
+Lemma subseq_nil_r {A} (k : list A) : subseq k [] -> k = [].
+Proof. intros H. inversion H. reflexivity. Qed.
+
+Lemma subseq_one {A} (k : list A) a : subseq k [a] -> k = [] \/ k = [a].
+Proof.
+  intros H. inversion H as [|x l1 l2 H1|x l1 l2 H1]; subst.
+  - left. now apply subseq_nil_r.
+  - right. apply subseq_nil_r in H1. now subst.
+Qed.
+
+Lemma subseq_two {A} (k : list A) a b :
+  subseq k [a; b] -> k = [] \/ k = [a] \/ k = [b] \/ k = [a; b].
+Proof.
+  intros H. inversion H as [|x l1 l2 H1|x l1 l2 H1]; subst.
+  - apply subseq_one in H1. destruct H1 as [H1|H1]; subst; auto.
+  - apply subseq_one in H1. destruct H1 as [H1|H1]; subst; auto.
+Qed.
+
+Lemma subseq_nil_l {A} (l : list A) : subseq [] l.
+Proof. induction l; constructor; auto. Qed.
+
+Lemma crash_content d c i n x :
+  crash_of d c -> ilookup i (inodes d) = Some n -> i_dur n = Some x -> c_content c i = x.
+Proof.
+  intros (_ & _ & H) Hi Hd. specialize (H i n Hi). now rewrite Hd in H.
+Qed.
+
+Lemma tmp_data_app a b : tmp_data (a ++ b) = tmp_data a ++ tmp_data b.
+Proof.
+  induction a as [|e a IH]; [reflexivity|].
+  cbn [app tmp_data]. destruct e as [l|l|l data|l|s dd|l]; try exact IH.
+  destruct l; try exact IH. rewrite IH. now rewrite app_assoc.
+Qed.
+
+Lemma proto_run_app f reserve l1 : forall st l2,
+  proto_run f reserve st (l1 ++ l2) =
+  match proto_run f reserve st l1 with Some st' => proto_run f reserve st' l2 | None => None end.
+Proof.
+  induction l1 as [|e l1 IH]; intros st l2; [reflexivity|].
+  cbn [app proto_run]. destruct (proto_step f reserve st e); [apply IH|reflexivity].
+Qed.
+
+Lemma exec_events_app d l1 l2 : exec_events d (l1 ++ l2) = exec_events (exec_events d l1) l2.
+Proof. unfold exec_events. apply fold_left_app. Qed.
+
+(* a file of the old base directory read through a view that did not touch it *)
+Lemma old_file_crash d0 d c g :
+  base_quiescent d0 ->
+  (forall j, (j < next_ino d0)%nat -> ilookup j (inodes d) = ilookup j (inodes d0)) ->
+  crash_of d c ->
+  elookup g (c_base c) = elookup g (base_vol d0) ->
+  crashed_file c g = vol_file d0 g.
+Proof.
+  intros (_ & _ & Hclean & _ & Hlt & _) Hold Hc Hg.
+  unfold crashed_file, vol_file. rewrite Hg.
+  destruct (elookup g (base_vol d0)) as [i|] eqn:Ei; [|reflexivity].
+  destruct (Hclean g i Ei) as (n & Hn & Hdur). rewrite Hn.
+  f_equal. eapply crash_content; eauto. rewrite Hold; eauto.
+Qed.
+
+Lemma old_file_vol d0 d g :
+  base_quiescent d0 ->
+  (forall j, (j < next_ino d0)%nat -> ilookup j (inodes d) = ilookup j (inodes d0)) ->
+  elookup g (base_vol d) = elookup g (base_vol d0) ->
+  vol_file d g = vol_file d0 g.
+Proof.
+  intros (_ & _ & _ & _ & Hlt & _) Hold Hg.
+  unfold vol_file. rewrite Hg.
+  destruct (elookup g (base_vol d0)) as [i|] eqn:Ei; [|reflexivity].
+  rewrite Hold; eauto.
+Qed.
+
 (* ---------------- general facts ---------------- *)
 
 (* on a base-quiescent disk every crash state shows exactly the volatile view
    of the base directory *)
 Theorem crash_view_of_quiescent d c :
   base_quiescent d -> crash_of d c -> forall f, crashed_file c f = vol_file d f.
-Admitted.
+Proof.
+  intros Hq Hc f. apply (old_file_crash d d c f); auto.
+  destruct Hq as (Hp & Hd & _). destruct Hc as ((kept & Hs & Hb) & _).
+  rewrite Hp in Hs. apply subseq_nil_r in Hs. subst kept. cbn in Hb.
+  now rewrite Hb, Hd.
+Qed.
 
 Lemma protocol_prefix_closed f reserve l1 l2 :
   protocol_prefix_ok f reserve (l1 ++ l2) = true -> protocol_prefix_ok f reserve l1 = true.
-Admitted.
+Proof.
+  unfold protocol_prefix_ok. rewrite proto_run_app.
+  now destruct (proto_run f reserve (PStart false) l1).
+Qed.
 
 Lemma protocol_complete_is_prefix f reserve l :
   protocol_complete_ok f reserve l = true -> protocol_prefix_ok f reserve l = true.
-Admitted.
+Proof.
+  unfold protocol_complete_ok, protocol_prefix_ok.
+  now destruct (proto_run f reserve (PStart false) l).
+Qed.
+
+(* ---------------- the protocol invariant ---------------- *)
+(* The disk after an accepted prefix, described through its lookups, relative
+   to the quiescent start disk d0.  i0 = inode of the reservation (add only),
+   i1 = inode of the temp file. *)
+Definition empty_inode : inode := {| i_vol := []; i_dur := Some []; i_written := false |}.
+
+Definition ino_r (d0 : disk) : ino := next_ino d0.
+Definition ino_t (reserve : bool) (d0 : disk) : ino := if reserve then S (next_ino d0) else next_ino d0.
+
+Definition ino0 (d0 : disk) (r : bool) (j : ino) : option inode :=
+  if r && Nat.eqb j (ino_r d0) then Some empty_inode else ilookup j (inodes d0).
+
+Definition basev (f : bytes) (d0 : disk) (k : option ino) (g : bytes) : option ino :=
+  match k with
+  | Some i => if beq g f then Some i else elookup g (base_vol d0)
+  | None => elookup g (base_vol d0)
+  end.
+
+Definition rsv (d0 : disk) (r : bool) : option ino := if r then Some (ino_r d0) else None.
+Definition rpend (f : bytes) (d0 : disk) (r : bool) : list dirop := if r then [DLink f (ino_r d0)] else [].
+Definition no_rename (f : bytes) (evs : list event) : Prop :=
+  forall t, ~ In (ERename (LTmpFile t) (LFile f)) evs.
+
+Definition inv_start (f : bytes) (reserve : bool) (d0 : disk) (r : bool) (evs : list event) (d : disk) : Prop :=
+  (r = true -> reserve = true) /\
+  next_ino d = (if r then S (next_ino d0) else next_ino d0) /\
+  (forall j, ilookup j (inodes d) = ino0 d0 r j) /\
+  (forall g, elookup g (base_vol d) = basev f d0 (rsv d0 r) g) /\
+  base_dur d = base_dur d0 /\
+  base_pend d = rpend f d0 r /\
+  (forall t', elookup t' (tmp_vol d) = elookup t' (tmp_vol d0)) /\
+  tmp_data evs = [] /\
+  no_rename f evs.
+
+Definition inv_tmp (f : bytes) (reserve : bool) (d0 : disk) (t : bytes) (synced : bool)
+           (evs : list event) (d : disk) : Prop :=
+  next_ino d = S (ino_t reserve d0) /\
+  (exists n, i_vol n = tmp_data evs /\ (synced = true -> i_dur n = Some (i_vol n)) /\
+     forall j, ilookup j (inodes d) = if Nat.eqb j (ino_t reserve d0) then Some n else ino0 d0 reserve j) /\
+  (forall g, elookup g (base_vol d) = basev f d0 (rsv d0 reserve) g) /\
+  base_dur d = base_dur d0 /\
+  base_pend d = rpend f d0 reserve /\
+  (forall t', elookup t' (tmp_vol d) = if beq t' t then Some (ino_t reserve d0) else elookup t' (tmp_vol d0)) /\
+  no_rename f evs.
+
+Definition inv_ren (f : bytes) (reserve : bool) (d0 : disk) (t : bytes) (done : bool)
+           (evs : list event) (d : disk) : Prop :=
+  next_ino d = S (ino_t reserve d0) /\
+  (exists n, i_vol n = tmp_data evs /\ i_dur n = Some (i_vol n) /\
+     forall j, ilookup j (inodes d) = if Nat.eqb j (ino_t reserve d0) then Some n else ino0 d0 reserve j) /\
+  (forall g, elookup g (base_vol d) = basev f d0 (Some (ino_t reserve d0)) g) /\
+  (if done then base_dur d = base_vol d /\ base_pend d = []
+   else base_dur d = base_dur d0 /\ base_pend d = rpend f d0 reserve ++ [DLink f (ino_t reserve d0)]) /\
+  (forall t', elookup t' (tmp_vol d) = if beq t' t then None else elookup t' (tmp_vol d0)) /\
+  (exists t0, In (ERename (LTmpFile t0) (LFile f)) evs).
+
+Definition PInv (f : bytes) (reserve : bool) (d0 : disk) (st : pstate) (evs : list event) (d : disk) : Prop :=
+  match st with
+  | PStart r => inv_start f reserve d0 r evs d
+  | PTmp t => inv_tmp f reserve d0 t false evs d
+  | PSynced t => inv_tmp f reserve d0 t true evs d
+  | PRenamed t => inv_ren f reserve d0 t false evs d
+  | PDone t => inv_ren f reserve d0 t true evs d
+  end.
+
+Lemma no_rename_snoc f evs e :
+  no_rename f evs -> (forall t, e <> ERename (LTmpFile t) (LFile f)) -> no_rename f (evs ++ [e]).
+Proof.
+  intros Hnr He t Hin. apply in_app_or in Hin. destruct Hin as [Hin|[Hin|[]]].
+  - exact (Hnr t Hin).
+  - exact (He t Hin).
+Qed.
+
+Ltac fields :=
+  cbn [inodes next_ino base_vol base_dur base_pend tmp_vol tmp_dur tmp_pend tmp_exists_vol tmp_exists_dur].
+
+Lemma step_reserve f reserve d0 evs d :
+  reserve = true -> inv_start f reserve d0 false evs d ->
+  inv_start f reserve d0 true (evs ++ [ECreate (LFile f)]) (exec_event d (ECreate (LFile f))).
+Proof.
+  intros Hr (_ & Hnx & Hino & Hbv & Hbd & Hbp & Htv & Htd & Hnr).
+  unfold inv_start, exec_event, new_file, with_base. fields.
+  rewrite Hnx, Hbp.
+  repeat apply conj.
+  - auto.
+  - reflexivity.
+  - intros j. rewrite ilookup_iset, Hino. unfold ino0, ino_r. cbn [andb].
+    destruct (Nat.eqb j (next_ino d0)); reflexivity.
+  - intros g. rewrite elookup_eset, Hbv. reflexivity.
+  - exact Hbd.
+  - reflexivity.
+  - exact Htv.
+  - rewrite tmp_data_app, Htd. reflexivity.
+  - apply no_rename_snoc; [exact Hnr|]. intros t; discriminate.
+Qed.
+
+Lemma step_mkdir f reserve d0 r evs d :
+  inv_start f reserve d0 r evs d ->
+  inv_start f reserve d0 r (evs ++ [EMkdir LTmpDir]) (exec_event d (EMkdir LTmpDir)).
+Proof.
+  intros (Hr & Hnx & Hino & Hbv & Hbd & Hbp & Htv & Htd & Hnr).
+  unfold inv_start, exec_event. fields.
+  repeat apply conj; auto.
+  - rewrite tmp_data_app, Htd. reflexivity.
+  - apply no_rename_snoc; [exact Hnr|]. intros t; discriminate.
+Qed.
+
+Lemma step_create_tmp f reserve d0 t evs d :
+  inv_start f reserve d0 reserve evs d ->
+  inv_tmp f reserve d0 t false (evs ++ [ECreate (LTmpFile t)]) (exec_event d (ECreate (LTmpFile t))).
+Proof.
+  intros (Hr & Hnx & Hino & Hbv & Hbd & Hbp & Htv & Htd & Hnr).
+  unfold inv_tmp, exec_event, new_file, with_tmp. fields.
+  change (if reserve then S (next_ino d0) else next_ino d0) with (ino_t reserve d0) in Hnx.
+  rewrite Hnx.
+  repeat apply conj; auto.
+  - exists empty_inode. repeat apply conj.
+    + rewrite tmp_data_app, Htd. reflexivity.
+    + discriminate.
+    + intros j. rewrite ilookup_iset, Hino. reflexivity.
+  - intros t'. rewrite elookup_eset, Htv. reflexivity.
+  - apply no_rename_snoc; [exact Hnr|]. intros t0; discriminate.
+Qed.
+
+Lemma step_write f reserve d0 t data evs d :
+  inv_tmp f reserve d0 t false evs d ->
+  inv_tmp f reserve d0 t false (evs ++ [EWrite (LTmpFile t) data]) (exec_event d (EWrite (LTmpFile t) data)).
+Proof.
+  intros (Hnx & (n & Hvol & Hsy & Hino) & Hbv & Hbd & Hbp & Htv & Hnr).
+  unfold inv_tmp, exec_event, lookup_loc.
+  rewrite Htv, beq_refl, Hino, Nat.eqb_refl. unfold with_inodes. fields.
+  repeat apply conj; auto.
+  - exists {| i_vol := i_vol n ++ data; i_dur := None; i_written := true |}. repeat apply conj.
+    + cbn [i_vol]. rewrite tmp_data_app, Hvol. cbn [tmp_data]. now rewrite app_nil_r.
+    + discriminate.
+    + intros j. rewrite ilookup_iset, Hino.
+      destruct (Nat.eqb j (ino_t reserve d0)); reflexivity.
+  - apply no_rename_snoc; [exact Hnr|]. intros t0; discriminate.
+Qed.
+
+Lemma step_fsync_tmp f reserve d0 t s evs d :
+  inv_tmp f reserve d0 t s evs d ->
+  inv_tmp f reserve d0 t true (evs ++ [EFsync (LTmpFile t)]) (exec_event d (EFsync (LTmpFile t))).
+Proof.
+  intros (Hnx & (n & Hvol & Hsy & Hino) & Hbv & Hbd & Hbp & Htv & Hnr).
+  unfold inv_tmp, exec_event, lookup_loc.
+  rewrite Htv, beq_refl, Hino, Nat.eqb_refl. unfold with_inodes. fields.
+  repeat apply conj; auto.
+  - exists {| i_vol := i_vol n; i_dur := Some (i_vol n); i_written := i_written n |}. repeat apply conj.
+    + cbn [i_vol]. rewrite tmp_data_app, Hvol. cbn [tmp_data]. now rewrite app_nil_r.
+    + reflexivity.
+    + intros j. rewrite ilookup_iset, Hino.
+      destruct (Nat.eqb j (ino_t reserve d0)); reflexivity.
+  - apply no_rename_snoc; [exact Hnr|]. intros t0; discriminate.
+Qed.
+
+Lemma step_rename f reserve d0 t evs d :
+  inv_tmp f reserve d0 t true evs d ->
+  inv_ren f reserve d0 t false (evs ++ [ERename (LTmpFile t) (LFile f)])
+          (exec_event d (ERename (LTmpFile t) (LFile f))).
+Proof.
+  intros (Hnx & (n & Hvol & Hsy & Hino) & Hbv & Hbd & Hbp & Htv & Hnr).
+  unfold inv_ren, exec_event.
+  rewrite Htv, beq_refl. unfold with_base, with_tmp. fields.
+  repeat apply conj; auto.
+  - exists n. repeat apply conj; auto.
+    rewrite tmp_data_app, Hvol. cbn [tmp_data]. now rewrite app_nil_r.
+  - intros g. rewrite elookup_eset, Hbv. unfold basev, rsv.
+    destruct (beq g f); destruct reserve; reflexivity.
+  - now rewrite Hbp.
+  - intros t'. rewrite elookup_eremove, Htv. destruct (beq t' t); reflexivity.
+  - exists t. apply in_or_app. right. now left.
+Qed.
+
+Lemma step_fsync_base f reserve d0 t s evs d :
+  inv_ren f reserve d0 t s evs d ->
+  inv_ren f reserve d0 t true (evs ++ [EFsync LBaseDir]) (exec_event d (EFsync LBaseDir)).
+Proof.
+  intros (Hnx & (n & Hvol & Hsy & Hino) & Hbv & Hbd & Htv & (t0 & Hin)).
+  unfold inv_ren, exec_event. fields.
+  repeat apply conj; auto.
+  - exists n. repeat apply conj; auto.
+    rewrite tmp_data_app, Hvol. cbn [tmp_data]. now rewrite app_nil_r.
+  - exists t0. apply in_or_app. now left.
+Qed.
+
+Lemma step_unlink_tmp f reserve d0 t evs d :
+  inv_ren f reserve d0 t true evs d ->
+  inv_ren f reserve d0 t true (evs ++ [EUnlink (LTmpFile t)]) (exec_event d (EUnlink (LTmpFile t))).
+Proof.
+  intros (Hnx & (n & Hvol & Hsy & Hino) & Hbv & Hbd & Htv & (t0 & Hin)).
+  unfold inv_ren, exec_event, with_tmp. fields.
+  repeat apply conj; auto.
+  - exists n. repeat apply conj; auto.
+    rewrite tmp_data_app, Hvol. cbn [tmp_data]. now rewrite app_nil_r.
+  - tauto.
+  - tauto.
+  - intros t'. rewrite elookup_eremove, Htv. destruct (beq t' t); reflexivity.
+  - exists t0. apply in_or_app. now left.
+Qed.
+
+Ltac split_ifs H :=
+  repeat match type of H with
+         | context [if ?b then _ else _] => destruct b eqn:?; try discriminate H
+         end.
+
+Lemma PInv_step f reserve d0 st st' e evs d :
+  PInv f reserve d0 st evs d ->
+  proto_step f reserve st e = Some st' ->
+  PInv f reserve d0 st' (evs ++ [e]) (exec_event d e).
+Proof.
+  intros Hinv Hstep.
+  destruct st as [r|t|t|t|t];
+    destruct e as [[g|t'| |]|[g|t'| |]|[g|t'| |] data|[g|t'| |]|[g|t'| |] [g2|t2| |]|[g|t'| |]];
+    cbn in Hstep; try discriminate Hstep; split_ifs Hstep;
+    injection Hstep as <-;
+    repeat match goal with
+           | H : beq _ _ = true |- _ => apply beq_eq in H
+           | H : andb _ _ = true |- _ => apply andb_prop in H; destruct H
+           | H : Bool.eqb _ _ = true |- _ => apply Bool.eqb_prop in H
+           end; subst; cbn [PInv] in *.
+  all: first [ now apply step_reserve
+             | now apply step_mkdir
+             | now apply step_create_tmp
+             | now apply step_write
+             | now eapply step_fsync_tmp; eauto
+             | now apply step_rename
+             | now eapply step_fsync_base; eauto
+             | now apply step_unlink_tmp
+             | idtac ].
+Qed.
+
+Lemma PInv_init f reserve d0 : base_quiescent d0 -> PInv f reserve d0 (PStart false) [] d0.
+Proof.
+  intros (Hp & _). cbn [PInv]. unfold inv_start.
+  repeat apply conj; auto.
+  - discriminate.
+  - intros t H. exact H.
+Qed.
+
+Lemma proto_run_snoc f reserve st l e :
+  proto_run f reserve st (l ++ [e]) =
+  match proto_run f reserve st l with Some st' => proto_step f reserve st' e | None => None end.
+Proof.
+  rewrite proto_run_app. destruct (proto_run f reserve st l) as [st'|]; [|reflexivity].
+  cbn [proto_run]. now destruct (proto_step f reserve st' e).
+Qed.
+
+Lemma proto_inv f reserve d0 :
+  base_quiescent d0 ->
+  forall evs st, proto_run f reserve (PStart false) evs = Some st ->
+                 PInv f reserve d0 st evs (exec_events d0 evs).
+Proof.
+  intros Hq evs. induction evs as [|e evs IH] using rev_ind; intros st Hrun.
+  - cbn in Hrun. injection Hrun as <-. now apply PInv_init.
+  - rewrite proto_run_snoc in Hrun.
+    destruct (proto_run f reserve (PStart false) evs) as [st0|] eqn:E0; [|discriminate].
+    rewrite exec_events_app. cbn [exec_events fold_left].
+    eapply PInv_step; eauto.
+Qed.
+
+(* ---------------- what the invariant says about readers ---------------- *)
+Lemma ino0_old d0 r j : (j < next_ino d0)%nat -> ino0 d0 r j = ilookup j (inodes d0).
+Proof.
+  intros Hj. unfold ino0, ino_r. destruct r; cbn [andb]; [|reflexivity].
+  destruct (Nat.eqb j (next_ino d0)) eqn:E; [apply Nat.eqb_eq in E; lia|reflexivity].
+Qed.
+
+Lemma ino0_rsv d0 : ino0 d0 true (ino_r d0) = Some empty_inode.
+Proof. unfold ino0. now rewrite Nat.eqb_refl. Qed.
+
+Lemma ino_t_old reserve d0 j : (j < next_ino d0)%nat -> Nat.eqb j (ino_t reserve d0) = false.
+Proof. intros Hj. apply Nat.eqb_neq. unfold ino_t. destruct reserve; lia. Qed.
+
+Lemma ino_r_t d0 : Nat.eqb (ino_r d0) (ino_t true d0) = false.
+Proof. apply Nat.eqb_neq. unfold ino_r, ino_t. lia. Qed.
+
+Lemma ino_t_ge reserve d0 : (next_ino d0 <= ino_t reserve d0)%nat.
+Proof. unfold ino_t. destruct reserve; lia. Qed.
+
+Lemma ino0_lt d0 reserve j n : base_quiescent d0 -> ino0 d0 reserve j = Some n -> (j < S (ino_t reserve d0))%nat.
+Proof.
+  intros (_ & _ & _ & Hlt & _) H. unfold ino0, ino_r, ino_t in *.
+  destruct reserve; cbn [andb] in H.
+  - destruct (Nat.eqb j (next_ino d0)) eqn:E.
+    + apply Nat.eqb_eq in E. lia.
+    + apply Hlt in H. lia.
+  - apply Hlt in H. lia.
+Qed.
+
+Definition good (f : bytes) (reserve : bool) (d0 : disk) (evs : list event) (d : disk) (k : option ino) : Prop :=
+  k = None \/
+  (k = Some (ino_r d0) /\ reserve = true /\ ilookup (ino_r d0) (inodes d) = Some empty_inode) \/
+  (k = Some (ino_t reserve d0) /\
+   (exists n, ilookup (ino_t reserve d0) (inodes d) = Some n /\ i_vol n = tmp_data evs /\ i_dur n = Some (i_vol n)) /\
+   exists t, In (ERename (LTmpFile t) (LFile f)) evs).
+
+Definition summary (f : bytes) (reserve : bool) (d0 : disk) (evs : list event) (d : disk) : Prop :=
+  (forall j, (j < next_ino d0)%nat -> ilookup j (inodes d) = ilookup j (inodes d0)) /\
+  (exists kv, (forall g, elookup g (base_vol d) = basev f d0 kv g) /\ good f reserve d0 evs d kv) /\
+  (base_dur d = base_dur d0 \/ (base_dur d = base_vol d /\ base_pend d = [])) /\
+  (forall o, In o (base_pend d) -> exists i, o = DLink f i /\ good f reserve d0 evs d (Some i)).
+
+Lemma PInv_summary f reserve d0 st evs d :
+  PInv f reserve d0 st evs d -> summary f reserve d0 evs d.
+Proof.
+  intros Hinv. destruct st as [r|t|t|t|t]; cbn [PInv] in Hinv.
+  - destruct Hinv as (Hr & Hnx & Hino & Hbv & Hbd & Hbp & Htv & Htd & Hnr).
+    assert (Hg : good f reserve d0 evs d (rsv d0 r)).
+    { destruct r; [|now left]. right; left. repeat apply conj; auto.
+      rewrite Hino. apply ino0_rsv. }
+    repeat apply conj.
+    + intros j Hj. rewrite Hino. now apply ino0_old.
+    + exists (rsv d0 r). auto.
+    + now left.
+    + rewrite Hbp. destruct r; cbn [rpend]; intros o Ho; [|destruct Ho].
+      destruct Ho as [<-|[]]. exists (ino_r d0). auto.
+  - destruct Hinv as (Hnx & (n & Hvol & Hsy & Hino) & Hbv & Hbd & Hbp & Htv & Hnr).
+    assert (Hg : good f reserve d0 evs d (rsv d0 reserve)).
+    { destruct reserve eqn:Hres; [|now left]. right; left. repeat apply conj; auto.
+      rewrite Hino, ino_r_t. apply ino0_rsv. }
+    repeat apply conj.
+    + intros j Hj. rewrite Hino, ino_t_old by auto. now apply ino0_old.
+    + exists (rsv d0 reserve). auto.
+    + now left.
+    + rewrite Hbp. destruct reserve; cbn [rpend]; intros o Ho; [|destruct Ho].
+      destruct Ho as [<-|[]]. exists (ino_r d0). auto.
+  - destruct Hinv as (Hnx & (n & Hvol & Hsy & Hino) & Hbv & Hbd & Hbp & Htv & Hnr).
+    assert (Hg : good f reserve d0 evs d (rsv d0 reserve)).
+    { destruct reserve eqn:Hres; [|now left]. right; left. repeat apply conj; auto.
+      rewrite Hino, ino_r_t. apply ino0_rsv. }
+    repeat apply conj.
+    + intros j Hj. rewrite Hino, ino_t_old by auto. now apply ino0_old.
+    + exists (rsv d0 reserve). auto.
+    + now left.
+    + rewrite Hbp. destruct reserve; cbn [rpend]; intros o Ho; [|destruct Ho].
+      destruct Ho as [<-|[]]. exists (ino_r d0). auto.
+  - destruct Hinv as (Hnx & (n & Hvol & Hsy & Hino) & Hbv & (Hbd & Hbp) & Htv & Hren).
+    assert (Hg1 : good f reserve d0 evs d (Some (ino_t reserve d0))).
+    { right; right. repeat apply conj; auto. exists n. repeat apply conj; auto.
+      rewrite Hino. now rewrite Nat.eqb_refl. }
+    assert (Hg0 : reserve = true -> good f reserve d0 evs d (Some (ino_r d0))).
+    { intros Hres. right; left. repeat apply conj; auto.
+      rewrite Hino. rewrite Hres at 1. rewrite ino_r_t. rewrite Hres. apply ino0_rsv. }
+    repeat apply conj.
+    + intros j Hj. rewrite Hino, ino_t_old by auto. now apply ino0_old.
+    + exists (Some (ino_t reserve d0)). auto.
+    + now left.
+    + rewrite Hbp. intros o Ho. apply in_app_or in Ho. destruct Ho as [Ho|[<-|[]]].
+      * destruct reserve eqn:Hres; cbn [rpend] in Ho; [|destruct Ho].
+        destruct Ho as [<-|[]]. exists (ino_r d0). auto.
+      * exists (ino_t reserve d0). auto.
+  - destruct Hinv as (Hnx & (n & Hvol & Hsy & Hino) & Hbv & (Hbd & Hbp) & Htv & Hren).
+    assert (Hg1 : good f reserve d0 evs d (Some (ino_t reserve d0))).
+    { right; right. repeat apply conj; auto. exists n. repeat apply conj; auto.
+      rewrite Hino. now rewrite Nat.eqb_refl. }
+    repeat apply conj.
+    + intros j Hj. rewrite Hino, ino_t_old by auto. now apply ino0_old.
+    + exists (Some (ino_t reserve d0)). auto.
+    + now right.
+    + rewrite Hbp. intros o [].
+Qed.
+
+Lemma subseq_In {A} (k l : list A) x : subseq k l -> In x k -> In x l.
+Proof.
+  induction 1 as [|y l1 l2 H IH|y l1 l2 H IH]; intros Hin; auto.
+  - right. auto.
+  - destruct Hin as [->|Hin]; [now left|right; auto].
+Qed.
+
+Lemma fold_links f e kept :
+  (forall o, In o kept -> exists i, o = DLink f i) ->
+  exists k,
+    (forall g, elookup g (fold_left (fun e o => apply_dirop o e) kept e) =
+               match k with Some i => if beq g f then Some i else elookup g e | None => elookup g e end) /\
+    (k = None \/ exists i, k = Some i /\ In (DLink f i) kept).
+Proof.
+  induction kept as [|o kept IH] using rev_ind; intros Hall.
+  - exists None. split; [reflexivity|now left].
+  - destruct IH as (k & Hk & _).
+    { intros o' Ho'. apply Hall. apply in_or_app. now left. }
+    destruct (Hall o) as (i & ->). { apply in_or_app. right. now left. }
+    exists (Some i). split.
+    + intros g. rewrite fold_left_app. cbn [fold_left apply_dirop].
+      rewrite elookup_eset, Hk. destruct (beq g f); [reflexivity|]. now destruct k.
+    + right. exists i. split; [reflexivity|]. apply in_or_app. right. now left.
+Qed.
+
+Lemma crash_view f reserve d0 evs d c :
+  base_quiescent d0 -> summary f reserve d0 evs d -> crash_of d c ->
+  exists k, (forall g, elookup g (c_base c) = basev f d0 k g) /\ good f reserve d0 evs d k.
+Proof.
+  intros Hq (Hold & (kv & Hkv & Hgkv) & Hdur & Hpend) ((kept & Hs & Hb) & _).
+  destruct Hdur as [Hdur|(Hdur & Hp)].
+  - destruct (fold_links f (base_dur d) kept) as (k & Hk & Hkk).
+    { intros o Ho. destruct (Hpend o) as (i & Hi & _); eauto using subseq_In. }
+    exists k. split.
+    + intros g. rewrite Hb, Hk, Hdur. destruct Hq as (_ & -> & _). reflexivity.
+    + destruct Hkk as [->|(i & -> & Hin)]; [now left|].
+      destruct (Hpend (DLink f i)) as (i' & Hi' & Hg); eauto using subseq_In.
+      injection Hi' as <-. exact Hg.
+  - rewrite Hp in Hs. apply subseq_nil_r in Hs. subst kept. cbn [fold_left] in Hb.
+    exists kv. split; auto. intros g. now rewrite Hb, Hdur.
+Qed.
+
+Lemma basev_other f d0 k g : g <> f -> basev f d0 k g = elookup g (base_vol d0).
+Proof.
+  intros Hg. apply beq_neq in Hg. unfold basev. destruct k; [now rewrite Hg|reflexivity].
+Qed.
 
 (* ---------------- C08: a crash at ANY instant ---------------- *)
 (* For every prefix of a disciplined trace and every crash state of it, the
@@ -35,7 +564,24 @@ Theorem crash_safe_prefix f reserve d0 evs c :
     \/ (reserve = false /\ crashed_file c f = vol_file d0 f)
     \/ ((exists t, In (ERename (LTmpFile t) (LFile f)) evs) /\ crashed_file c f = Some (tmp_data evs)) )
   /\ (forall g, g <> f -> crashed_file c g = vol_file d0 g).
-Admitted.
+Proof.
+  intros Hq Hpre _ Hok Hc. unfold protocol_prefix_ok in Hok.
+  destruct (proto_run f reserve (PStart false) evs) as [st|] eqn:Hrun; [|discriminate].
+  pose proof (PInv_summary _ _ _ _ _ _ (proto_inv f reserve d0 Hq evs st Hrun)) as Hsum.
+  destruct (crash_view _ _ _ _ _ _ Hq Hsum Hc) as (k & Hk & Hg).
+  destruct Hsum as (Hold & _).
+  split.
+  - destruct Hg as [->|[(-> & Hres & Hi0)|(-> & (n & Hn & Hv & Hd) & Hren)]].
+    + destruct reserve eqn:Hres; unfold target_pre in Hpre.
+      * left. split; [reflexivity|]. unfold crashed_file. rewrite Hk. cbn [basev]. now rewrite Hpre.
+      * right; right; left. split; [reflexivity|].
+        eapply old_file_crash; eauto.
+    + right; left. split; [exact Hres|]. unfold crashed_file. rewrite Hk. cbn [basev].
+      rewrite beq_refl. f_equal. eapply crash_content; eauto.
+    + right; right; right. split; [exact Hren|]. unfold crashed_file. rewrite Hk. cbn [basev].
+      rewrite beq_refl. f_equal. rewrite <- Hv. eapply crash_content; eauto.
+  - intros g Hgf. eapply old_file_crash; eauto. rewrite Hk. now apply basev_other.
+Qed.
 
 (* the process-kill instance (nothing lost): readers in other processes see
    the volatile state at a system-call boundary, which is one of the same *)
@@ -47,18 +593,108 @@ Theorem kill_safe_prefix f reserve d0 evs :
     \/ (reserve = false /\ vol_file (exec_events d0 evs) f = vol_file d0 f)
     \/ ((exists t, In (ERename (LTmpFile t) (LFile f)) evs) /\ vol_file (exec_events d0 evs) f = Some (tmp_data evs)) )
   /\ (forall g, g <> f -> vol_file (exec_events d0 evs) g = vol_file d0 g).
-Admitted.
+Proof.
+  intros Hq Hpre _ Hok. unfold protocol_prefix_ok in Hok.
+  destruct (proto_run f reserve (PStart false) evs) as [st|] eqn:Hrun; [|discriminate].
+  pose proof (PInv_summary _ _ _ _ _ _ (proto_inv f reserve d0 Hq evs st Hrun)) as Hsum.
+  destruct Hsum as (Hold & (k & Hk & Hg) & _).
+  split.
+  - destruct Hg as [->|[(-> & Hres & Hi0)|(-> & (n & Hn & Hv & Hd) & Hren)]].
+    + destruct reserve eqn:Hres; unfold target_pre in Hpre.
+      * left. split; [reflexivity|]. unfold vol_file. rewrite Hk. cbn [basev]. now rewrite Hpre.
+      * right; right; left. split; [reflexivity|].
+        eapply old_file_vol; eauto.
+    + right; left. split; [exact Hres|]. unfold vol_file. rewrite Hk. cbn [basev].
+      rewrite beq_refl, Hi0. reflexivity.
+    + right; right; right. split; [exact Hren|]. unfold vol_file. rewrite Hk. cbn [basev].
+      rewrite beq_refl, Hn. now rewrite Hv.
+  - intros g Hgf. eapply old_file_vol; eauto. rewrite Hk. now apply basev_other.
+Qed.
 
 (* a new record never becomes visible under its final name before its
    content is durable: the rename is preceded by an fsync of the temp file
    with no write in between *)
+Definition no_write (l : list event) : Prop := forall loc data, ~ In (EWrite loc data) l.
+
+Lemma no_write_nil : no_write [].
+Proof. intros l d H. exact H. Qed.
+
+Lemma no_write_cons e l : (forall loc data, e <> EWrite loc data) -> no_write l -> no_write (e :: l).
+Proof. intros He Hl loc data [H|H]; [exact (He _ _ H)|exact (Hl _ _ H)]. Qed.
+
+Lemma early_vis_gen f reserve t : forall evs st st',
+  proto_run f reserve st evs = Some st' ->
+  In (ERename (LTmpFile t) (LFile f)) evs ->
+  match st with
+  | PStart _ | PTmp _ =>
+      exists l1 l2 l3,
+        evs = l1 ++ EFsync (LTmpFile t) :: l2 ++ ERename (LTmpFile t) (LFile f) :: l3 /\
+        no_write l2 /\ no_write l3
+  | PSynced t0 =>
+      t0 = t /\
+      exists l2 l3, evs = l2 ++ ERename (LTmpFile t) (LFile f) :: l3 /\ no_write l2 /\ no_write l3
+  | PRenamed _ | PDone _ => False
+  end.
+Proof.
+  induction evs as [|e evs IH]; intros st st' Hrun Hin; [destruct Hin|].
+  cbn [proto_run] in Hrun.
+  destruct (proto_step f reserve st e) as [st1|] eqn:Hstep; [|discriminate].
+  destruct st as [r|t0|t0|t0|t0];
+    destruct e as [[g|t'| |]|[g|t'| |]|[g|t'| |] data|[g|t'| |]|[g|t'| |] [g2|t2| |]|[g|t'| |]];
+    cbn in Hstep; try discriminate Hstep; split_ifs Hstep;
+    injection Hstep as <-;
+    repeat match goal with
+           | H : beq _ _ = true |- _ => apply beq_eq in H
+           | H : andb _ _ = true |- _ => apply andb_prop in H; destruct H
+           | H : Bool.eqb _ _ = true |- _ => apply Bool.eqb_prop in H
+           end; subst;
+    (destruct Hin as [Hin|Hin]; [try discriminate Hin|]).
+  (* PStart: ECreate f, ECreate tmp, EMkdir: the rename is later *)
+  all: try (specialize (IH _ _ Hrun Hin); cbn beta iota in IH).
+  all: try (exfalso; exact IH).
+  all: try (match goal with
+            | |- exists l1 l2 l3, ?e :: _ = _ /\ _ =>
+                match type of IH with
+                | exists l1 l2 l3, _ =>
+                    destruct IH as (l1 & l2 & l3 & -> & H2 & H3);
+                    exists (e :: l1), l2, l3; repeat apply conj; auto
+                | _ /\ _ =>
+                    destruct IH as (-> & l2 & l3 & -> & H2 & H3);
+                    exists [], l2, l3; repeat apply conj; auto
+                end
+            end).
+  - (* PSynced, another fsync *)
+    destruct IH as (-> & l2 & l3 & -> & H2 & H3). split; [reflexivity|].
+    exists (EFsync (LTmpFile t) :: l2), l3. repeat apply conj; auto.
+    apply no_write_cons; auto. discriminate.
+  - (* PSynced, the rename itself *)
+    injection Hin as <-. split; [reflexivity|].
+    exists [], evs. repeat apply conj; auto using no_write_nil.
+    clear -Hrun. intros loc data Hw.
+    assert (Hgen : forall l s s', proto_run f reserve s l = Some s' ->
+                     (exists x, s = PRenamed x \/ s = PDone x) -> ~ In (EWrite loc data) l).
+    { clear. induction l as [|e l IHl]; intros s s' Hr Hs H; [exact H|].
+      cbn [proto_run] in Hr. destruct (proto_step f reserve s e) as [s1|] eqn:Hst; [|discriminate].
+      destruct H as [->|H].
+      - destruct Hs as (x & [->| ->]); cbn in Hst; discriminate.
+      - apply (IHl s1 s' Hr); auto.
+        destruct Hs as (x & [->| ->]);
+          destruct e as [[g|t'| |]|[g|t'| |]|[g|t'| |] data'|[g|t'| |]|[g|t'| |] [g2|t2| |]|[g|t'| |]];
+          cbn in Hst; try discriminate Hst; split_ifs Hst; injection Hst as <-; eauto. }
+    eapply Hgen; eauto.
+Qed.
+
 Theorem no_early_visibility f reserve evs t :
   protocol_prefix_ok f reserve evs = true ->
   In (ERename (LTmpFile t) (LFile f)) evs ->
   exists l1 l2 l3,
     evs = l1 ++ EFsync (LTmpFile t) :: l2 ++ ERename (LTmpFile t) (LFile f) :: l3 /\
     (forall l d, ~ In (EWrite l d) l2) /\ (forall l d, ~ In (EWrite l d) l3).
-Admitted.
+Proof.
+  intros Hok Hin. unfold protocol_prefix_ok in Hok.
+  destruct (proto_run f reserve (PStart false) evs) as [st|] eqn:Hrun; [|discriminate].
+  exact (early_vis_gen f reserve t evs _ _ Hrun Hin).
+Qed.
 
 (* ---------------- C09: acknowledged changes are durable ---------------- *)
 (* a completed add / update: the new content is what every later crash state
@@ -70,7 +706,45 @@ Theorem complete_is_durable f reserve d0 evs :
   base_quiescent (exec_events d0 evs) /\
   vol_file (exec_events d0 evs) f = Some (tmp_data evs) /\
   (forall g, g <> f -> vol_file (exec_events d0 evs) g = vol_file d0 g).
-Admitted.
+Proof.
+  intros Hq Hpre _ Hok. unfold protocol_complete_ok in Hok.
+  destruct (proto_run f reserve (PStart false) evs) as [st|] eqn:Hrun; [|discriminate].
+  destruct st as [r|t|t|t|t]; try discriminate Hok.
+  pose proof (proto_inv f reserve d0 Hq evs _ Hrun) as Hinv.
+  pose proof (PInv_summary _ _ _ _ _ _ Hinv) as (Hold & _).
+  cbn [PInv] in Hinv.
+  destruct Hinv as (Hnx & (n & Hvol & Hsy & Hino) & Hbv & (Hbd & Hbp) & Htv & Hren).
+  set (d := exec_events d0 evs) in *.
+  pose proof Hq as (_ & _ & Hclean0 & Hilt0 & Hblt0 & Htlt0 & Hdisj0).
+  pose proof (ino_t_ge reserve d0) as Hge.
+  assert (Hbase : forall g i, elookup g (base_vol d) = Some i ->
+            (g = f /\ i = ino_t reserve d0) \/ (g <> f /\ elookup g (base_vol d0) = Some i)).
+  { intros g i Hgi. rewrite Hbv in Hgi. cbn [basev] in Hgi.
+    destruct (beq g f) eqn:E.
+    - apply beq_eq in E. injection Hgi as <-. now left.
+    - apply beq_neq in E. now right. }
+  assert (Htmp : forall t' i, elookup t' (tmp_vol d) = Some i -> elookup t' (tmp_vol d0) = Some i).
+  { intros t' i Hti. rewrite Htv in Hti. destruct (beq t' t); [discriminate|exact Hti]. }
+  split; [|split].
+  - unfold base_quiescent. repeat apply conj; auto.
+    + intros g i Hgi. destruct (Hbase g i Hgi) as [(-> & ->)|(Hgf & Hgi0)].
+      * exists n. split; [|exact Hsy]. rewrite Hino. now rewrite Nat.eqb_refl.
+      * destruct (Hclean0 g i Hgi0) as (n0 & Hn0 & Hc0). exists n0. split; [|exact Hc0].
+        rewrite Hold; eauto.
+    + intros i n' Hi. rewrite Hino in Hi. rewrite Hnx.
+      destruct (Nat.eqb i (ino_t reserve d0)) eqn:E.
+      * apply Nat.eqb_eq in E. lia.
+      * eapply ino0_lt; eauto.
+    + intros g i Hgi. rewrite Hnx. destruct (Hbase g i Hgi) as [(-> & ->)|(Hgf & Hgi0)]; [lia|].
+      apply Hblt0 in Hgi0. lia.
+    + intros t' i Hti. rewrite Hnx. apply Htmp in Hti. apply Htlt0 in Hti. lia.
+    + intros g t' i Hgi Hti. apply Htmp in Hti.
+      destruct (Hbase g i Hgi) as [(-> & ->)|(Hgf & Hgi0)].
+      * apply Htlt0 in Hti. lia.
+      * exact (Hdisj0 g t' i Hgi0 Hti).
+  - unfold vol_file. rewrite Hbv. cbn [basev]. rewrite beq_refl, Hino, Nat.eqb_refl. now rewrite Hvol.
+  - intros g Hgf. eapply old_file_vol; eauto. rewrite Hbv. now apply basev_other.
+Qed.
 
 Corollary complete_survives_crash f reserve d0 evs c :
   base_quiescent d0 -> target_pre f reserve d0 -> tmp_fresh evs d0 ->
@@ -78,7 +752,80 @@ Corollary complete_survives_crash f reserve d0 evs c :
   crash_of (exec_events d0 evs) c ->
   crashed_file c f = Some (tmp_data evs) /\
   (forall g, g <> f -> crashed_file c g = vol_file d0 g).
-Admitted.
+Proof.
+  intros Hq Hpre Hfr Hok Hc.
+  destruct (complete_is_durable f reserve d0 evs Hq Hpre Hfr Hok) as (Hq' & Hf & Hg).
+  split.
+  - rewrite <- Hf. now apply crash_view_of_quiescent.
+  - intros g Hgf. rewrite <- (Hg g Hgf). now apply crash_view_of_quiescent.
+Qed.
+
+(* the inode-related part of base_quiescent *)
+Definition links_ok (d : disk) : Prop :=
+  (forall f i, elookup f (base_vol d) = Some i ->
+     exists n, ilookup i (inodes d) = Some n /\ i_dur n = Some (i_vol n)) /\
+  (forall i n, ilookup i (inodes d) = Some n -> (i < next_ino d)%nat) /\
+  (forall f i, elookup f (base_vol d) = Some i -> (i < next_ino d)%nat) /\
+  (forall t i, elookup t (tmp_vol d) = Some i -> (i < next_ino d)%nat) /\
+  (forall f t i, elookup f (base_vol d) = Some i -> elookup t (tmp_vol d) <> Some i).
+
+Lemma quiescent_links d : base_quiescent d -> links_ok d.
+Proof. intros (_ & _ & H). exact H. Qed.
+
+Lemma links_quiescent d : base_pend d = [] -> base_dur d = base_vol d -> links_ok d -> base_quiescent d.
+Proof. intros H1 H2 H3. exact (conj H1 (conj H2 H3)). Qed.
+
+Lemma links_ok_sub d d' :
+  inodes d' = inodes d -> next_ino d' = next_ino d -> tmp_vol d' = tmp_vol d ->
+  (forall g i, elookup g (base_vol d') = Some i -> exists g', elookup g' (base_vol d) = Some i) ->
+  links_ok d -> links_ok d'.
+Proof.
+  intros Hi Hn Ht Hb (Hc & Hil & Hbl & Htl & Hdj).
+  unfold links_ok. rewrite Hi, Hn, Ht. repeat apply conj; auto.
+  - intros g i Hg. destruct (Hb g i Hg) as (g' & Hg'). eauto.
+  - intros g i Hg. destruct (Hb g i Hg) as (g' & Hg'). eauto.
+  - intros g t i Hg. destruct (Hb g i Hg) as (g' & Hg'). eauto.
+Qed.
+
+Lemma rename_base_links a b i e g j :
+  elookup a e = Some i ->
+  elookup g (eset b i (eremove a e)) = Some j -> exists g', elookup g' e = Some j.
+Proof.
+  intros Ha Hg. rewrite elookup_eset, elookup_eremove in Hg.
+  destruct (beq g b).
+  - injection Hg as <-. eauto.
+  - destruct (beq g a); [discriminate|eauto].
+Qed.
+
+Lemma unlink_base_links a e g (j : ino) :
+  elookup g (eremove a e) = Some j -> exists g', elookup g' e = Some j.
+Proof.
+  intros Hg. rewrite elookup_eremove in Hg. destruct (beq g a); [discriminate|eauto].
+Qed.
+
+Lemma links_ok_rename d a b :
+  links_ok d -> links_ok (exec_event d (ERename (LFile a) (LFile b))).
+Proof.
+  intros Hl. unfold exec_event. destruct (elookup a (base_vol d)) as [i|] eqn:Ea; [|exact Hl].
+  apply (links_ok_sub d); [reflexivity|reflexivity|reflexivity| |exact Hl].
+  unfold with_base. fields. intros g j. now apply rename_base_links.
+Qed.
+
+Lemma links_ok_unlink d a :
+  links_ok d -> links_ok (exec_event d (EUnlink (LFile a))).
+Proof.
+  intros Hl. unfold exec_event.
+  apply (links_ok_sub d); [reflexivity|reflexivity|reflexivity| |exact Hl].
+  unfold with_base. fields. intros g j. apply unlink_base_links.
+Qed.
+
+Lemma links_ok_fsync_base d :
+  links_ok d -> links_ok (exec_event d (EFsync LBaseDir)).
+Proof.
+  intros Hl. unfold exec_event.
+  apply (links_ok_sub d); [reflexivity|reflexivity|reflexivity| |exact Hl].
+  fields. eauto.
+Qed.
 
 (* set-admin: rename inside the base directory followed by its fsync *)
 Theorem set_admin_durable d0 a b content c :
@@ -87,7 +834,55 @@ Theorem set_admin_durable d0 a b content c :
   base_quiescent d /\
   (crash_of d c -> crashed_file c b = Some content /\ crashed_file c a = None /\
                    forall g, g <> a -> g <> b -> crashed_file c g = vol_file d0 g).
-Admitted.
+Proof.
+  intros Hq Hab Ha _ d.
+  assert (Hqd : base_quiescent d).
+  { subst d. unfold exec_events. cbn [fold_left].
+    apply links_quiescent; [reflexivity|reflexivity|].
+    apply links_ok_fsync_base, links_ok_rename. now apply quiescent_links. }
+  split; [exact Hqd|]. intros Hc.
+  pose proof (crash_view_of_quiescent d c Hqd Hc) as Hview.
+  unfold vol_file in Ha.
+  destruct (elookup a (base_vol d0)) as [i|] eqn:Ea; [|discriminate].
+  destruct (ilookup i (inodes d0)) as [n|] eqn:En; [|discriminate].
+  injection Ha as <-.
+  assert (Hvol : forall g, vol_file d g =
+            match (if beq g b then Some i else if beq g a then None else elookup g (base_vol d0)) with
+            | Some i => match ilookup i (inodes d0) with Some n => Some (i_vol n) | None => None end
+            | None => None
+            end).
+  { intros g. subst d. unfold exec_events. cbn [fold_left]. unfold exec_event. rewrite Ea.
+    unfold vol_file, with_base. fields. now rewrite elookup_eset, elookup_eremove. }
+  repeat apply conj.
+  - rewrite Hview, Hvol, beq_refl, En. reflexivity.
+  - rewrite Hview, Hvol. assert (E : beq a b = false) by now apply beq_neq.
+    now rewrite E, beq_refl.
+  - intros g Hga Hgb. rewrite Hview, Hvol.
+    apply beq_neq in Hga, Hgb. now rewrite Hga, Hgb.
+Qed.
+
+Lemma unlinks_exec names : forall d,
+  let d' := exec_events d (map (fun n => EUnlink (LFile n)) names) in
+  inodes d' = inodes d /\ next_ino d' = next_ino d /\ tmp_vol d' = tmp_vol d /\
+  (forall g, elookup g (base_vol d') = if existsb (beq g) names then None else elookup g (base_vol d)).
+Proof.
+  induction names as [|n names IH]; intros d.
+  - cbn. auto.
+  - cbn [map]. unfold exec_events. cbn [fold_left].
+    specialize (IH (exec_event d (EUnlink (LFile n)))). cbn zeta in IH. unfold exec_events in IH.
+    destruct IH as (H1 & H2 & H3 & H4). cbn zeta.
+    rewrite H1, H2, H3. repeat apply conj; try reflexivity.
+    intros g. rewrite H4. unfold exec_event, with_base. fields.
+    rewrite elookup_eremove. cbn [existsb].
+    destruct (beq g n); cbn [orb]; [now destruct (existsb (beq g) names)|reflexivity].
+Qed.
+
+Lemma existsb_beq_In g names : existsb (beq g) names = true <-> In g names.
+Proof.
+  rewrite existsb_exists. split.
+  - intros (x & Hin & Hx). apply beq_eq in Hx. now subst.
+  - intros Hin. exists g. split; [exact Hin|apply beq_refl].
+Qed.
 
 (* remove: unlinks followed by an fsync of the base directory *)
 Theorem remove_durable d0 names c :
@@ -96,7 +891,61 @@ Theorem remove_durable d0 names c :
   base_quiescent d /\
   (crash_of d c -> (forall n, In n names -> crashed_file c n = None) /\
                    forall g, ~ In g names -> crashed_file c g = vol_file d0 g).
-Admitted.
+Proof.
+  intros Hq d. subst d. rewrite exec_events_app.
+  destruct (unlinks_exec names d0) as (H1 & H2 & H3 & H4).
+  set (d1 := exec_events d0 (map (fun n => EUnlink (LFile n)) names)) in *.
+  unfold exec_events. cbn [fold_left].
+  set (d := exec_event d1 (EFsync LBaseDir)).
+  assert (Hqd : base_quiescent d).
+  { apply links_quiescent; [reflexivity|reflexivity|].
+    apply links_ok_fsync_base. eapply links_ok_sub; [exact H1|exact H2|exact H3| |apply quiescent_links, Hq].
+    intros g i Hg. rewrite H4 in Hg. destruct (existsb (beq g) names); [discriminate|eauto]. }
+  split; [exact Hqd|]. intros Hc.
+  pose proof (crash_view_of_quiescent d c Hqd Hc) as Hview.
+  assert (Hvol : forall g, vol_file d g =
+            match (if existsb (beq g) names then None else elookup g (base_vol d0)) with
+            | Some i => match ilookup i (inodes d0) with Some n => Some (i_vol n) | None => None end
+            | None => None
+            end).
+  { intros g. unfold vol_file, d, exec_event. fields. now rewrite H4, H1. }
+  split.
+  - intros n Hn. rewrite Hview, Hvol. apply existsb_beq_In in Hn. now rewrite Hn.
+  - intros g Hg. rewrite Hview, Hvol.
+    destruct (existsb (beq g) names) eqn:E; [apply existsb_beq_In in E; contradiction|reflexivity].
+Qed.
+
+Definition bare_d0 : disk :=
+  {| inodes := [(O, {| i_vol := str "rec"; i_dur := Some (str "rec"); i_written := true |})];
+     next_ino := 1%nat;
+     base_vol := [(str "u.user", O)]; base_dur := [(str "u.user", O)]; base_pend := [];
+     tmp_exists_vol := false; tmp_exists_dur := false;
+     tmp_vol := []; tmp_dur := []; tmp_pend := [] |}.
+Definition bare_c : crashed :=
+  {| c_base := [(str "u.user", O)]; c_tmp := []; c_content := fun _ => str "rec" |}.
+
+Lemma bare_d0_quiescent : base_quiescent bare_d0.
+Proof.
+  unfold base_quiescent, bare_d0. fields. repeat apply conj; try reflexivity.
+  - intros g i H. cbn [elookup] in H.
+    destruct (beq g (str "u.user")); [|discriminate]. injection H as <-.
+    eexists. split; reflexivity.
+  - intros i n H. cbn [ilookup] in H. destruct (Nat.eqb i 0) eqn:E; [|discriminate].
+    apply Nat.eqb_eq in E. lia.
+  - intros g i H. cbn [elookup] in H.
+    destruct (beq g (str "u.user")); [|discriminate]. injection H as <-. lia.
+  - intros t i H. discriminate H.
+  - intros g t i _ H. discriminate H.
+Qed.
+
+Lemma bare_content d :
+  inodes d = inodes bare_d0 ->
+  forall i n, ilookup i (inodes d) = Some n ->
+    match i_dur n with Some durable => c_content bare_c i = durable | None => True end.
+Proof.
+  intros -> i n H. unfold bare_d0 in H. cbn [inodes ilookup] in H.
+  destruct (Nat.eqb i 0); [|discriminate]. injection H as <-. reflexivity.
+Qed.
 
 (* without the final fsync the change can be lost: the refutation witness
    for a bare rename (the behaviour of SetAdmin before its repair) *)
@@ -104,13 +953,29 @@ Theorem bare_rename_not_durable :
   exists d0 c, base_quiescent d0 /\ vol_file d0 (str "u.user") = Some (str "rec") /\
     crash_of (exec_events d0 [ERename (LFile (str "u.user")) (LFile (str "u.admin"))]) c /\
     crashed_file c (str "u.admin") = None /\ crashed_file c (str "u.user") = Some (str "rec").
-Admitted.
+Proof.
+  exists bare_d0, bare_c. split; [exact bare_d0_quiescent|].
+  split; [vm_compute; reflexivity|].
+  split; [|split; vm_compute; reflexivity].
+  unfold crash_of. repeat apply conj.
+  - exists []. split; [apply subseq_nil_l|vm_compute; reflexivity].
+  - exists []. split; [apply subseq_nil_l|vm_compute; reflexivity].
+  - apply bare_content. vm_compute. reflexivity.
+Qed.
 
 Theorem bare_unlink_not_durable :
   exists d0 c, base_quiescent d0 /\ vol_file d0 (str "u.user") = Some (str "rec") /\
     crash_of (exec_events d0 [EUnlink (LFile (str "u.user"))]) c /\
     crashed_file c (str "u.user") = Some (str "rec").
-Admitted.
+Proof.
+  exists bare_d0, bare_c. split; [exact bare_d0_quiescent|].
+  split; [vm_compute; reflexivity|].
+  split; [|vm_compute; reflexivity].
+  unfold crash_of. repeat apply conj.
+  - exists []. split; [apply subseq_nil_l|vm_compute; reflexivity].
+  - exists []. split; [apply subseq_nil_l|vm_compute; reflexivity].
+  - apply bare_content. vm_compute. reflexivity.
+Qed.
 
 (* durability checker: a trace made only of directory operations that passes
    it leaves a quiescent base directory *)
@@ -121,36 +986,281 @@ Definition dir_only (evs : list event) : Prop :=
     | _ => False
     end.
 
+Lemma dir_sound evs : forall d p,
+  links_ok d -> dir_only evs -> base_changes_synced evs p = true ->
+  (p = false -> base_pend d = [] /\ base_dur d = base_vol d) ->
+  base_quiescent (exec_events d evs).
+Proof.
+  induction evs as [|e evs IH]; intros d p Hl Hdo Hs Hp.
+  - cbn in Hs. destruct p; [discriminate|]. destruct (Hp eq_refl) as (H1 & H2).
+    now apply links_quiescent.
+  - assert (Hdo' : dir_only evs).
+    { intros e' He'. apply Hdo. now right. }
+    pose proof (Hdo e (or_introl eq_refl)) as He.
+    change (exec_events d (e :: evs)) with (exec_events (exec_event d e) evs).
+    destruct e as [[g|t'| |]|[g|t'| |]|[g|t'| |] data|[g|t'| |]|[g|t'| |] [g2|t2| |]|[g|t'| |]];
+      try (exfalso; exact He); cbn [base_changes_synced] in Hs.
+    + (* EFsync LBaseDir *)
+      apply (IH _ false); auto using links_ok_fsync_base.
+    + apply (IH _ true); auto using links_ok_rename; discriminate.
+    + apply (IH _ true); auto using links_ok_unlink; discriminate.
+Qed.
+
 Theorem durability_checker_sound d0 evs :
   base_quiescent d0 -> dir_only evs -> durability_ok evs = true ->
   base_quiescent (exec_events d0 evs).
-Admitted.
+Proof.
+  intros Hq Hdo Hs. apply (dir_sound evs d0 false); auto using quiescent_links.
+  intros _. destruct Hq as (H1 & H2 & _). auto.
+Qed.
+
+(* ---------------- auxiliaries: the programs without a fault ---------------- *)
+Lemma tick_none k s :
+  tick None k s = (None, {| t_dir := t_dir s; t_cnt := cnt_inc k (t_cnt s); t_ev := t_ev s |}).
+Proof. reflexivity. Qed.
+
+Lemma stat_none fname s :
+  exists s1, p_stat None fname s = (stat_file (t_dir s) fname, s1) /\
+             t_dir s1 = t_dir s /\ t_ev s1 = t_ev s.
+Proof.
+  unfold p_stat, stat_file. rewrite tick_none.
+  destruct (name_max <? len fname); eexists; (split; [reflexivity|split; reflexivity]).
+Qed.
+
+Lemma exists_none u s :
+  exists s1, p_exists None u s = (user_exists (t_dir s) u, s1) /\
+             t_dir s1 = t_dir s /\ t_ev s1 = t_ev s.
+Proof.
+  unfold p_exists, user_exists.
+  destruct (stat_none (u ++ ext_admin) s) as (s1 & -> & Hd1 & He1).
+  destruct (stat_file (t_dir s) (u ++ ext_admin)); try (eexists; split; [reflexivity|now split]).
+  destruct (stat_none (u ++ ext_user) s1) as (s2 & -> & Hd2 & He2).
+  rewrite Hd1.
+  destruct (stat_file (t_dir s) (u ++ ext_user));
+    (eexists; split; [reflexivity|split; congruence]).
+Qed.
+
+Lemma remove_ev l s :
+  t_ev (p_remove None l s) = t_ev s \/ t_ev (p_remove None l s) = EUnlink l :: t_ev s.
+Proof.
+  unfold p_remove. rewrite !tick_none. cbv beta iota zeta.
+  destruct l as [fname|t| |]; cbn [t_dir t_ev].
+  - destruct (dlookup fname (t_dir s)) as [[content|[|kid kids]]|]; cbn; auto.
+  - unfold tmp_children. cbn [t_dir].
+    destruct (dlookup tmp_name (t_dir s)) as [[content|kids]|]; cbn; auto.
+    destruct (alookup t kids); cbn; auto.
+  - cbn. auto.
+  - cbn. auto.
+Qed.
+
+Lemma mkdir_ev s b s2 :
+  p_mkdir_tmp None s = (b, s2) ->
+  t_ev s2 = t_ev s \/ t_ev s2 = EMkdir LTmpDir :: t_ev s.
+Proof.
+  unfold p_mkdir_tmp. rewrite !tick_none. cbv beta iota zeta. cbn [t_dir t_ev].
+  destruct (dlookup tmp_name (t_dir s)) as [[content|kids]|]; intros H; injection H as <- <-; cbn; auto.
+Qed.
+
+Definition wh_events (fname t : bytes) (reserve : bool) (line rest : bytes) (mk w un : bool) : list event :=
+  (if reserve then [ECreate (LFile fname)] else []) ++
+  (if mk then [EMkdir LTmpDir] else []) ++
+  [ECreate (LTmpFile t); EWrite (LTmpFile t) line] ++
+  (if w then [EWrite (LTmpFile t) rest] else []) ++
+  [EFsync (LTmpFile t); ERename (LTmpFile t) (LFile fname); EFsync LBaseDir] ++
+  (if un then [EUnlink (LTmpFile t)] else []).
+
+Lemma wh_events_complete fname t reserve line rest mk w un :
+  protocol_complete_ok fname reserve (wh_events fname t reserve line rest mk w un) = true.
+Proof.
+  unfold protocol_complete_ok, wh_events.
+  destruct reserve, mk, w, un; do 8 (cbn; rewrite ?beq_refl); reflexivity.
+Qed.
+
+Lemma wh_events_data fname t reserve line rest mk w un :
+  (w = false -> rest = []) ->
+  tmp_data (wh_events fname t reserve line rest mk w un) = line ++ rest.
+Proof.
+  intros Hw. unfold wh_events.
+  destruct reserve, mk, w, un; cbn; rewrite ?app_nil_r; try reflexivity;
+    rewrite (Hw eq_refl); now rewrite ?app_nil_r.
+Qed.
+
+Lemma tick_none_inv k s e s1 :
+  tick None k s = (e, s1) -> e = None /\ t_ev s1 = t_ev s /\ t_dir s1 = t_dir s.
+Proof. rewrite tick_none. intros H. injection H as <- <-. auto. Qed.
+
+Lemma rerr_neq_rok (x y : tstate) : (RErr, x) = (ROk, y) -> False.
+Proof. intros H. discriminate H. Qed.
+
+(* one system call: name its result state, keep only what it leaves unchanged *)
+Ltac tick_step H :=
+  match type of H with
+  | context [tick None ?k ?s] =>
+      let e := fresh "e" in let s1 := fresh "s" in let Ht := fresh "Ht" in
+      let Hev := fresh "Hev" in let Hdir := fresh "Hdir" in
+      destruct (tick None k s) as [e s1] eqn:Ht in H;
+      apply tick_none_inv in Ht; destruct Ht as (-> & Hev & Hdir);
+      cbn [t_ev t_dir emit setdir] in Hev, Hdir; cbv beta iota in H
+  end.
+
+Ltac ev_chain :=
+  cbn [t_ev emit setdir];
+  repeat match goal with
+         | Hx : t_ev ?x = _ |- context [t_ev ?x] => rewrite Hx; cbn [t_ev emit setdir]
+         end.
+
+Ltac wh_tail H Hmk oldv :=
+  apply mkdir_ev in Hmk; cbn [t_ev emit setdir] in Hmk;
+  let rest := fresh "rest" in let Hrest := fresh "Hrest" in
+  remember (after_first_line oldv) as rest eqn:Hrest;
+  repeat tick_step H;
+  injection H as <-;
+  match goal with
+  | |- context [p_remove None ?l ?sx] =>
+      let Hun := fresh "Hun" in
+      destruct (remove_ev l sx) as [Hun|Hun];
+      [ destruct rest as [|? ?];
+        [ destruct Hmk as [Hmk|Hmk];
+          [ exists oldv, false, false, false | exists oldv, true, false, false ]
+        | destruct Hmk as [Hmk|Hmk];
+          [ exists oldv, false, true, false | exists oldv, true, true, false ] ]
+      | destruct rest as [|? ?];
+        [ destruct Hmk as [Hmk|Hmk];
+          [ exists oldv, false, false, true | exists oldv, true, false, true ]
+        | destruct Hmk as [Hmk|Hmk];
+          [ exists oldv, false, true, true | exists oldv, true, true, true ] ] ];
+      rewrite Hun; clear Hun; rewrite <- Hrest;
+      (split; [ev_chain; reflexivity | split; [intros; congruence | auto]])
+  end.
+
+(* conversion checks on the big program text must not start by evaluating
+   the system calls *)
+Local Strategy 100 [tick p_remove p_mkdir_tmp].
 
 (* ---------------- the model's programs follow the discipline ---------------- *)
 Section Programs.
   Variable kdf : hasher -> bytes -> bytes -> option bytes.
 
+  (* a successful writeHashStr: its events, in program order *)
+  Lemma write_hash_ok c h hs fname reserve o s s' :
+    p_write_hash None c h hs fname reserve o s = (ROk, s') ->
+    exists old mk w un,
+      t_ev s' = rev (wh_events fname (o_tmp o) reserve (print_record h (o_ts o) (default c) hs)
+                               (after_first_line old) mk w un) ++ t_ev s /\
+      (w = false -> after_first_line old = []) /\
+      (if reserve then old = [] else dlookup fname (t_dir s) = Some (File old)).
+  Proof.
+    intros H. unfold p_write_hash in H. rewrite tick_none in H. cbv beta iota in H. cbn [t_dir] in H.
+    destruct (dlookup fname (t_dir s)) as [[old|kids]|] eqn:Hlk; destruct reserve eqn:Hres;
+      try (exfalso; exact (rerr_neq_rok _ _ H)).
+    - destruct (p_mkdir_tmp None _) as [okdir s2] eqn:Hmk in H.
+      destruct okdir; cbn [negb] in H; [|exfalso; exact (rerr_neq_rok _ _ H)].
+      wh_tail H Hmk old.
+    - destruct (p_mkdir_tmp None _) as [okdir s2] eqn:Hmk in H.
+      destruct okdir; cbn [negb] in H; [|exfalso; exact (rerr_neq_rok _ _ H)].
+      repeat tick_step H. exfalso; exact (rerr_neq_rok _ _ H).
+    - destruct (p_mkdir_tmp None _) as [okdir s2] eqn:Hmk in H.
+      destruct okdir; cbn [negb] in H; [|exfalso; exact (rerr_neq_rok _ _ H)].
+      wh_tail H Hmk (@nil N).
+  Qed.
+
+  Lemma add_ok_inv c d u pw adm o s :
+    p_add kdf None c d u pw adm o = (ROk, s) ->
+    exists h hs mk w un,
+      cfg_hasher c (default c) = Some h /\ hash_generate kdf h (o_salt o) pw = Some hs /\
+      events s = wh_events (u ++ ext_of adm) (o_tmp o) true
+                           (print_record h (o_ts o) (default c) hs) [] mk w un.
+  Proof.
+    intros H. unfold p_add in H.
+    destruct (negb (valid_name u)); [exfalso; exact (rerr_neq_rok _ _ H)|].
+    destruct (exists_none u (t0 d)) as (s1 & He & Hd & Hev). rewrite He in H.
+    cbn [t0 t_dir t_ev] in *.
+    destruct (user_exists d u); try (exfalso; exact (rerr_neq_rok _ _ H)).
+    destruct (cfg_hasher c (default c)) as [h|] eqn:Hh; [|exfalso; exact (rerr_neq_rok _ _ H)].
+    destruct (hash_generate kdf h (o_salt o) pw) as [hs|] eqn:Hhs; [|exfalso; exact (rerr_neq_rok _ _ H)].
+    apply write_hash_ok in H. destruct H as (old & mk & w & un & Hev' & Hw & ->).
+    exists h, hs, mk, w, un. repeat apply conj; auto.
+    unfold events. rewrite Hev', Hev, app_nil_r, rev_involutive. reflexivity.
+  Qed.
+
+  Lemma update_ok_inv c d u pw o s :
+    p_update kdf None c d u pw o = (ROk, s) ->
+    exists adm old h hs mk w un,
+      user_exists d u = ExYes adm /\ read_file d (u ++ ext_of adm) = Some old /\
+      cfg_hasher c (default c) = Some h /\ hash_generate kdf h (o_salt o) pw = Some hs /\
+      (w = false -> after_first_line old = []) /\
+      events s = wh_events (u ++ ext_of adm) (o_tmp o) false
+                           (print_record h (o_ts o) (default c) hs) (after_first_line old) mk w un.
+  Proof.
+    intros H. unfold p_update in H.
+    destruct (negb (valid_name u)); [exfalso; exact (rerr_neq_rok _ _ H)|].
+    destruct (exists_none u (t0 d)) as (s1 & He & Hd & Hev). rewrite He in H.
+    cbn [t0 t_dir t_ev] in *.
+    destruct (user_exists d u) as [adm| |] eqn:Hex; try (exfalso; exact (rerr_neq_rok _ _ H)).
+    do 2 tick_step H.
+    destruct (read_file (t_dir s2) (u ++ ext_of adm)) as [content|] eqn:Hrd;
+      [|exfalso; exact (rerr_neq_rok _ _ H)].
+    destruct (is_supported c content); [|exfalso; exact (rerr_neq_rok _ _ H)].
+    destruct (cfg_hasher c (default c)) as [h|] eqn:Hh; [|exfalso; exact (rerr_neq_rok _ _ H)].
+    destruct (hash_generate kdf h (o_salt o) pw) as [hs|] eqn:Hhs; [|exfalso; exact (rerr_neq_rok _ _ H)].
+    apply write_hash_ok in H. destruct H as (old & mk & w & un & Hev' & Hw & Hold).
+    assert (Hdir2 : t_dir s2 = d) by congruence.
+    exists adm, old, h, hs, mk, w, un. repeat apply conj; auto.
+    - unfold read_file. rewrite <- Hdir2, Hold. reflexivity.
+    - unfold events. rewrite Hev'.
+      assert (Hnil : t_ev s2 = []) by congruence.
+      rewrite Hnil, app_nil_r, rev_involutive. reflexivity.
+  Qed.
+
   Theorem add_follows_protocol c d u pw adm o s :
     p_add kdf None c d u pw adm o = (ROk, s) ->
     protocol_complete_ok (u ++ ext_of adm) true (events s) = true.
-  Admitted.
+  Proof.
+    intros H. apply add_ok_inv in H. destruct H as (h & hs & mk & w & un & _ & _ & ->).
+    apply wh_events_complete.
+  Qed.
 
   Theorem update_follows_protocol c d u pw o s :
     p_update kdf None c d u pw o = (ROk, s) ->
     exists adm, user_exists d u = ExYes adm /\
       protocol_complete_ok (u ++ ext_of adm) false (events s) = true.
-  Admitted.
+  Proof.
+    intros H. apply update_ok_inv in H.
+    destruct H as (adm & old & h & hs & mk & w & un & Hex & _ & _ & _ & _ & ->).
+    exists adm. split; [exact Hex|]. apply wh_events_complete.
+  Qed.
 
   Theorem set_admin_events d u adm s :
     p_set_admin None d u adm = (ROk, s) ->
     events s = [] \/
     exists cur, user_exists d u = ExYes cur /\ cur <> adm /\
       events s = [ERename (LFile (u ++ ext_of cur)) (LFile (u ++ ext_of adm)); EFsync LBaseDir].
-  Admitted.
+  Proof.
+    intros H. unfold p_set_admin in H.
+    destruct (negb (valid_name u)); [exfalso; exact (rerr_neq_rok _ _ H)|].
+    destruct (exists_none u (t0 d)) as (s1 & He & Hd & Hev). rewrite He in H.
+    cbn [t0 t_dir t_ev] in *.
+    destruct (user_exists d u) as [cur| |] eqn:Hex; try (exfalso; exact (rerr_neq_rok _ _ H)).
+    destruct (Bool.eqb cur adm) eqn:Hca.
+    - injection H as <-. left. unfold events. now rewrite Hev.
+    - do 2 tick_step H.
+      destruct (dlookup (u ++ ext_of cur) (t_dir s2)) as [n|]; [|exfalso; exact (rerr_neq_rok _ _ H)].
+      match type of H with context [if ?b then _ else _] => destruct b end;
+        [|exfalso; exact (rerr_neq_rok _ _ H)].
+      do 2 tick_step H. injection H as <-.
+      right. exists cur. repeat apply conj; auto.
+      + intros ->. now rewrite Bool.eqb_reflx in Hca.
+      + unfold events. ev_chain. reflexivity.
+  Qed.
 
   Theorem remove_events_durable d u :
     durability_ok (events (p_remove_user None d u)) = true.
-  Admitted.
+  Proof.
+    unfold p_remove_user. destruct (negb (valid_name u)); [reflexivity|].
+    rewrite !tick_none. cbv beta iota. unfold events, emit. cbn [t_ev].
+    destruct (remove_ev (LFile (u ++ ext_user)) (p_remove None (LFile (u ++ ext_admin)) (t0 d))) as [->| ->];
+      destruct (remove_ev (LFile (u ++ ext_admin)) (t0 d)) as [->| ->]; reflexivity.
+  Qed.
 
   (* the data the programs put into the temp file is the new record followed
      by the old auxiliary data *)
@@ -158,12 +1268,21 @@ Section Programs.
     p_add kdf None c d u pw adm o = (ROk, s) ->
     exists h hs, cfg_hasher c (default c) = Some h /\ hash_generate kdf h (o_salt o) pw = Some hs /\
       tmp_data (events s) = print_record h (o_ts o) (default c) hs.
-  Admitted.
+  Proof.
+    intros H. apply add_ok_inv in H. destruct H as (h & hs & mk & w & un & Hh & Hhs & ->).
+    exists h, hs. repeat apply conj; auto.
+    rewrite wh_events_data by reflexivity. apply app_nil_r.
+  Qed.
 
   Theorem update_tmp_data c d u pw o s :
     p_update kdf None c d u pw o = (ROk, s) ->
     exists adm old h hs, user_exists d u = ExYes adm /\ read_file d (u ++ ext_of adm) = Some old /\
       cfg_hasher c (default c) = Some h /\ hash_generate kdf h (o_salt o) pw = Some hs /\
       tmp_data (events s) = print_record h (o_ts o) (default c) hs ++ after_first_line old.
-  Admitted.
+  Proof.
+    intros H. apply update_ok_inv in H.
+    destruct H as (adm & old & h & hs & mk & w & un & Hex & Hrd & Hh & Hhs & Hw & ->).
+    exists adm, old, h, hs. repeat apply conj; auto.
+    now apply wh_events_data.
+  Qed.
 End Programs.
